@@ -535,6 +535,11 @@ func genHist(prop, out, tier string, rng *rand.Rand, oracle string) {
 			}
 		}
 	}
+	if prop == "C02" {
+		for _, mk := range stores() {
+			tasks = append(tasks, Task{mk, "big-payloads", bigPayloadProgram(), true})
+		}
+	}
 	if prop == "C02" || prop == "C10" {
 		for _, prog := range siblingPrograms() {
 			for _, mk := range stores() {
@@ -589,6 +594,40 @@ func genHist(prop, out, tier string, rng *rand.Rand, oracle string) {
 		addFsPathCases(sink)     // the file store's (bucket, name) -> files mapping against GCS/FsPaths.v
 	}
 	sink.Close(fmt.Sprintf("(C15 additionally: every interleaving of a compose with its destination among its sources, and of a copy, with a second writer of the object; C10 additionally: every interleaving of a metadata patch with a second patch, a content write, a delete or a copy onto the same object at the yield point between precondition check and store mutation, both stores, compared step by step with the interleaving model; C02/C11 additionally: uploads, compose and copy without an object name, a resumable session with a wrong declared MD5 finished several times; C02 additionally: decoded request paths - every URL form x bucket x name from pools with traps, plus random fragment concatenations - parsed by the real ParseGcsUrl and compared with the Coq model of the four unanchored patterns; and the round trip of the public form for every (bucket, name) pair; and the files the file store's Add creates in an empty store (listed through the OS, store root nested so that escapes are seen) for every name over {a . /} up to length 5, a pool of traps with and without the sidecar extension, and degenerate bucket names, against GCS/FsPaths.v) random histories (focus %s) of about %d requests over 2 buckets x %d names x %d payloads, all upload protocols with random chunkings, re-sent ranges, status queries, gzip bodies, wrong/invalid MD5, the three download URL forms, patches incl. read-only fields, listings, compose, copy, deletes, conditions; each program runs on the memory and the file store (names representable as files) and, one in three, on the memory store with trap names; distinct = distinct canonical (program, observation) text; non-trivial = at least one successful content write and one non-empty successful download", prop, length, len(namesRepresentable), len(payloads)), false)
+}
+
+// bigPayloadProgram: payloads of 9 000 bytes through every upload protocol (the resumable one in three
+// chunks), read back, composed (18 000 bytes), copied and listed (Coq's parser overflows its stack on
+// list literals of about 40 000 numbers, which bounds the payloads a case can carry)
+func bigPayloadProgram() []Req {
+	big := make([]byte, 9000)
+	for i := range big {
+		big[i] = byte(i*7 + i/251)
+	}
+	cr := func(lo, hi int) *string {
+		s := fmt.Sprintf("bytes %d-%d/%d", lo, hi-1, len(big))
+		return &s
+	}
+	see := func(n string) []Req {
+		return []Req{{Kind: "get_media", B: "bkt", N: n}, {Kind: "get_meta", B: "bkt", N: n}}
+	}
+	prog := []Req{
+		{Kind: "upload_media", B: "bkt", N: "big-m", CType: "application/octet-stream", Data: big, CP: noConds},
+		{Kind: "upload_multipart", B: "bkt", Up: &UpMeta{Name: "big-p", CType: "application/octet-stream", Md5: 1}, Data: big, CP: noConds},
+		{Kind: "resumable_init", B: "bkt", Up: &UpMeta{Name: "big-r", CType: "application/octet-stream"}, CP: noConds},
+		{Kind: "resumable_put", B: "bkt", ID: "#0", CRange: cr(0, 4096), Data: big[:4096]},
+		{Kind: "resumable_put", B: "bkt", ID: "#0", CRange: cr(4096, 8192), Data: big[4096:8192]},
+		{Kind: "resumable_put", B: "bkt", ID: "#0", CRange: cr(8192, 9000), Data: big[8192:]},
+	}
+	prog = append(prog, see("big-m")...)
+	prog = append(prog, see("big-p")...)
+	prog = append(prog, see("big-r")...)
+	prog = append(prog, Req{Kind: "compose", B: "bkt", N: "big-c", Srcs: []Src{{Name: "big-m", Cond: Raw("")}, {Name: "big-r", Cond: Raw("")}}, Up: &UpMeta{CType: "x/composed"}, CP: noConds})
+	prog = append(prog, see("big-c")...)
+	prog = append(prog, Req{Kind: "copy", B: "bkt", N: "big-c", B2: "bkt", N2: "big-c2"})
+	prog = append(prog, see("big-c2")...)
+	prog = append(prog, Req{Kind: "list", B: "bkt"})
+	return prog
 }
 
 // siblingPrograms: an object whose name differs from a written name only by an ending that file-handling
@@ -679,6 +718,7 @@ func sameSizePrograms() [][]Req {
 				append([]Req{comp("y", "a", "c")}, append(append(get("x"), get("y")...),
 					append([]Req{comp("z", "a", "missing"), comp("w", "a", "c", "b")}, append(append(get("x"), get("y")...), get("w")...)...)...)...)...)...))
 	}
+	progs = append(progs, bigPayloadProgram())
 	return progs
 }
 
